@@ -737,6 +737,9 @@ class XR(Sym):
             dom = None
             if self.dom is not None and o.dom is not None and o.dom[0] == o.dom[1]:
                 dom = (self.dom[0] + o.dom[0], self.dom[1] + o.dom[0])
+            elif (OPT.get('sum_dom') and self.dom is not None and o.dom is not None and self.it is not None and o.it is not None
+                  and (self.dom[1] + o.dom[1]) - (self.dom[0] + o.dom[0]) <= 12):
+                dom = (self.dom[0] + o.dom[0], self.dom[1] + o.dom[1])      # sums of small-range integers stay small-range
             it = None
             if self.it is not None and o.it is not None:
                 it = self.it + o.it
